@@ -101,6 +101,9 @@ pub fn install_panic_hook() {
 enum PathEnd { Ok, Panic(String), Abort(String) }
 fn run_body(f: &Body) -> PathEnd {
     LAST_PANIC.with(|p| p.borrow_mut().clear());
+    // every path starts outside the engine: a mask left over from an earlier abort on this thread would hide the view's allocations (C18)
+    crate::sym::IN_ENGINE.with(|e| e.set(0));
+    crate::alloc::reset();
     match std::panic::catch_unwind(std::panic::AssertUnwindSafe(|| f())) {
         Ok(()) => PathEnd::Ok,
         Err(e) => {
